@@ -53,7 +53,11 @@ THEOREMS = ['C16_split_flags_star', 'C16_split_flags_plus',
             'C16_macrobody_flag_stops_run_t', 'C16_bc_entry_sound',
             'C16_bc_stale_kind_quirk', 'C16_bc_designates_keys',
             'C16_aux_ids_above', 'C16_bc_designates_keys_trcl',
-            'C16_finish_designates', 'C16_finish_sound']
+            'C16_finish_designates', 'C16_finish_sound',
+            'C16_merge_entries_gen',
+            'C16_bc_designates_present_same_locus_linked',
+            'C16_bc_entries_designate_written_linked',
+            'C16_conflicting_flags_rejected_linked']
 TRUSTED = [
     'hand-written model coq/C16/Model.v (modelled, tied by execution only)',
     'surfaces are abstract in the model: a descriptor class stands for '
@@ -62,12 +66,13 @@ TRUSTED = [
     'tie compares them with the written SURF lines',
     'cells of the model are intersections of signed surface numbers (single '
     'surfaces with either sense, one-sheet cones and macrobodies with the '
-    'negative sense: pot_expand_surfs), optionally with a TRCL (descriptor '
+    'either sense: pot_expand_surfs, a positive one gives a UNION volume), '
+    'optionally with a TRCL (descriptor '
     'classes and sides of each transformed copy are supplied by the harness '
     'from a hand-written rigid-motion table: translations and quarter-turn '
-    'rotations in the tie stream); unions (incl. positive literals of '
-    'collections), complements, FILL copies and TR on surface cards are '
-    'covered by the oracle sweep only',
+    'rotations in the tie stream); unions written with `:`, complements, FILL '
+    'copies and TR on surface cards are covered by the oracle sweep and, at '
+    'the level of the volume table, by the theorems linked with C13',
     'the union helper planes (two PLANEX ids above every other id) are not in '
     'the model: intersection-only cells never use them and they can never be '
     'the smallest of a duplicate group',
@@ -330,15 +335,17 @@ def gen_deck(rng, malformed=False):
     usable = sorted({s['id'] for s in singles if last[s['id']]['single']})
     cells = []
     n_cells = rng.randint(1, 4)
-    # collections (one-sheet cones, macrobodies): negative literals only (a
-    # positive one is a UNION, outside the model)
+    # collections (one-sheet cones, macrobodies): negative literals (an
+    # intersection of the sub-surfaces) and positive ones (a UNION volume)
     bodies = sorted(k for k, s in last.items() if not s['single'])
     for c in range(n_cells):
         k = rng.randint(1, min(4, len(usable)))
         lits = [sid if rng.random() < 0.5 else -sid
                 for sid in rng.sample(usable, k)]
         if bodies and rng.random() < 0.5:
-            lits.insert(rng.randrange(len(lits) + 1), -rng.choice(bodies))
+            body = rng.choice(bodies)
+            lits.insert(rng.randrange(len(lits) + 1),
+                        body if rng.random() < 0.35 else -body)
         cells.append({'id': c + 1, 'lits': lits, 'imp': 1})
     if rng.random() < 0.12:         # the same surface with both senses
         c = rng.choice(cells)
@@ -373,27 +380,21 @@ def gen_deck(rng, malformed=False):
             and rng.random() < (0.45 if owners else 0.04):
         names = set()
         badref = False
-        for _ in range(rng.choice([1, 1, 2])):
+        for _ in range(rng.choice([1, 1, 2, 3])):
             roll = rng.random()
             owner = rng.choice(owners) if owners and roll < 0.9 else \
                 rng.choice(cells + [{'id': 8}])      # no TRCL / no such cell
             sid = rng.choice(usable + bodies) if rng.random() < 0.93 else 79
             n = 1000 * owner['id'] + sid
-            if n in names or list(names | {n}) != sorted(names | {n}):
+            if n in names:
                 continue
             names.add(n)
             badref = badref or sid == 79 or owner['id'] == 8
-            lit = -n if sid in bodies or rng.random() < 0.5 else n
+            lit = -n if rng.random() < (0.7 if sid in bodies else 0.5) else n
             rng.choice(hosts)['lits'].append(lit)
         if badref and fault is None:
             fault = 'missing'       # names a surface / a cell that does not exist
         elif badref:
-            return gen_deck(rng, malformed)
-        # the converter walks set(names) - set(cards): keep the deck only when
-        # that walk is in ascending order, which is what the model assumes
-        walk = set(abs(x) for c in cells for x in c['lits']
-                   if abs(x) >= 1000) - set(s['id'] for s in surfs)
-        if list(walk) != sorted(walk):
             return gen_deck(rng, malformed)
     return {'surfs': surfs, 'cells': cells, 'fault': fault}
 
@@ -448,6 +449,19 @@ def observe(deck, args):
         return conv, t4, '(Err EOther)'
     bcs = [cpair(KIND[k], cn(sid)) for k, sid in t4.boundary]
     return conv, t4, f'(Ok ({clist(surf)}, {clist(bcs)}))'
+
+
+def walk_order(deck):
+    '''The order in which the converter walks the implicit surfaces: it builds
+    set(numbers >= 1000 named by the cells, in card and literal order) minus
+    set(surface cards) and iterates over it; the same expression is evaluated
+    here, so the model is fed the order CPython really uses.'''
+    named = [abs(x) for c in deck['cells'] for x in c['lits']
+             if abs(x) >= 1000]
+    cards = {}
+    for s in deck['surfs']:
+        cards[s['id']] = s
+    return list(set(named) - set(cards))
 
 
 def coq_cards(deck):
@@ -698,6 +712,8 @@ def written_possible(deck, dedup):
                 classes = [s['cls']] + list(s['aux'])
                 sides = list(s.get('sides') or [True] * len(classes))
                 names = [('card', abs(x), i) for i in range(len(classes))]
+            if x > 0 and len(classes) > 1:
+                continue        # a UNION volume: not in the cell's equation
             for cls, side, name in zip(classes, sides, names):
                 positive = (x > 0) == side
                 (pos if positive else neg).add(cls if dedup else name)
@@ -852,6 +868,19 @@ def corpus_decks():
             cell['trcl'] = trcl
         out.append((deck([card(1, '', 8), dict(cone_lo), card(7, '', 7)],
                          [cell, skip]), []))
+    # positive literals of collections (UNION volumes); with de-duplication
+    # the second cell dies and leaves the FICTIVE arguments of its UNIONs
+    rcc = {'id': 3, 'flag': '', 'text': MULTI[4][0], 'mcnp': MULTI[4][1],
+           'cls': CLASS_OF[MULTI[4][2][0]],
+           'aux': [CLASS_OF[f_] for f_ in MULTI[4][2][1:]],
+           'sides': MULTI[4][3], 'single': False, 'locus': None, 'pool': None}
+    cone_up = dict(cone_lo, id=2, text='kz 0 1 1', sides=[True, False])
+    for args in ([], ['--skip-deduplication']):
+        out.append((deck([card(1, '', 10), cone_up, dict(rcc), card(7, '', 7),
+                          card(8, '', 10)],
+                         [{'id': 1, 'lits': [-1, 7, 2], 'imp': 1},
+                          {'id': 2, 'lits': [-1, 8, 3, 2], 'imp': 1},
+                          {'id': 3, 'lits': [1], 'imp': 0}]), args))
     # one-sheet cone (two TRIPOLI-4 parts) flagged, weird flag after a star
     cone = {'id': 6, 'flag': '+', 'text': 'kz 0 1 1', 'mcnp': 1,
             'cls': CLASS_OF[('CONEZ', (0.0, 0.0, 0.0, 45.0))],
@@ -1189,7 +1218,12 @@ def run(res, tier, seed, proofs_ok):
                                     for x in c['lits']) for s in deck['surfs'])))
         res.count('impl:' + (conv.exc or 'ok'))
         res.count('dedup:' + str('--skip-deduplication' not in args))
-        cases.append(cpair(cbool('--skip-deduplication' in args),
+        walk = walk_order(deck)
+        if walk:
+            res.count('shape:implicit-walk-ascending:'
+                      + str(walk == sorted(walk)))
+        cases.append(cpair(clist(cn(n) for n in walk),
+                           cbool('--skip-deduplication' in args),
                            cbool('--skip-boundary-conditions' in args),
                            coq_cards(deck), coq_cells(deck), term))
         meta.append((deck, args, conv, term))
@@ -1205,8 +1239,8 @@ def run(res, tier, seed, proofs_ok):
     res.extra['guard'] = {'flagged decks converted (theorems apply, no '
                           'guard)': inside,
                           'of which with a non-empty block': outside}
-    bad, errs = common.run_case_files('c16_run', HEADER, 'run_t_case',
-                                      'check_run_t', cases)
+    bad, errs = common.run_case_files('c16_run', HEADER, 'run_w_case',
+                                      'check_run_w', cases)
     res.obligation(f'tie:run ({len(cases)} conversions: Model.run = SURF ids/'
                    'classes + BOUNDARY_CONDITION block or exception class)',
                    not bad and not errs,
@@ -1215,7 +1249,7 @@ def run(res, tier, seed, proofs_ok):
         deck, args, conv, term = meta[idx]
         model, _ = common.coq_eval(
             HEADER + 'Import ListNotations.\n',
-            f'run_t (mkCfg {cbool("--skip-deduplication" in args)} '
+            f'run_t_with {clist(cn(n) for n in walk_order(deck))} (mkCfg {cbool("--skip-deduplication" in args)} '
             f'{cbool("--skip-boundary-conditions" in args)}) '
             f'{coq_cards(deck)} {coq_cells(deck)}')
         res.violation('correspondence',
@@ -1267,7 +1301,7 @@ def replay(path):
             if all('lits' in c for c in deck['cells']):
                 model, _ = common.coq_eval(
                     HEADER + 'Import ListNotations.\n',
-                    f'run_t (mkCfg {cbool("--skip-deduplication" in args)} '
+                    f'run_t_with {clist(cn(n) for n in walk_order(deck))} (mkCfg {cbool("--skip-deduplication" in args)} '
                     f'{cbool("--skip-boundary-conditions" in args)}) '
                     f'{coq_cards(deck)} {coq_cells(deck)}')
                 print('implementation:', term)
